@@ -229,6 +229,10 @@ def contradictory(facts):
                     return True
                 if op in ("Le", "Eq") and not pol:
                     return True
+            elif a[0] in ("int", "char", "bool") and b[0] == a[0]:
+                truth = {"Lt": a[1] < b[1], "Le": a[1] <= b[1], "Eq": a[1] == b[1]}[op]
+                if truth != pol:
+                    return True
         if atom in seen and seen[atom] != pol:
             return True
         seen[atom] = pol
